@@ -10,6 +10,8 @@ import (
 
 	"github.com/0chain/common/core/util/wmpt"
 
+	"verifmc/dev"
+	"verifmc/model"
 	"verifmc/rt"
 )
 
@@ -61,6 +63,7 @@ type c12run struct {
 	violate  func(key, msg string, replay map[string]any)
 	cases    int64
 	seqs     int64
+	faults   int64
 	distinct sync.Map
 }
 
@@ -101,6 +104,11 @@ func (r *c12run) runCase(c content, mode int, req [][]byte, reqName string, foll
 	}
 	if !cmp("right after the export") {
 		return
+	}
+	if len(follow) == 0 {
+		if !r.afterErrors(c, mode, req, m, export, describe, replay) {
+			return
+		}
 	}
 	for i, o := range follow {
 		var v []byte
@@ -353,7 +361,108 @@ func C12(tier rt.Tier) int {
 	rep.Set("traces_validated_against_impl", int(run.seqs))
 	rep.Set("evaluations", int(run.seqs))
 	rep.Set("distinct_nontrivial", nd)
-	rep.Set("rule", fmt.Sprintf("(A) every content of <= %d keys (plus 3-key shapes) in storage modes %v x EVERY subset of the six alphabet keys plus two never-stored keys (one under an empty root slot, one under an empty slot of the deepest branch) as request x every follow-up sequence of <= %d updates/deletes restricted to the requested keys (single follow-ups for requests of more than 3 keys in quick); (B) shapes with root = shared-prefix node / single entry / branch / empty x request sizes 0,1,2,10,11,12,14,16 padded with never-stored keys (both sides of the >10 parallel-collection threshold) x every single follow-up; (C) tries of %v keys (hash-like keys, distinct values), the paths to all keys exported, 40 mirrored updates/deletes. Oracle: export deserialises; partial root/weight == source root/weight (== model) before and after every mirrored operation; an operation that succeeds on the source must succeed on the partial trie; 'states' = (content, mode, request) cases, 'transitions' = mirrored sequences, distinct_nontrivial = distinct exports", maxKeys, modes, depth, scale))
+	rep.Set("failed_exports_followed_up", int(run.faults))
+	rep.Set("rule", fmt.Sprintf("(A) every content of <= %d keys (plus 3-key shapes) in storage modes %v x EVERY subset of the six alphabet keys plus two never-stored keys (one under an empty root slot, one under an empty slot of the deepest branch) as request x every follow-up sequence of <= %d updates/deletes restricted to the requested keys (single follow-ups for requests of more than 3 keys in quick); (B) shapes with root = shared-prefix node / single entry / branch / empty x request sizes 0,1,2,10,11,12,14,16 padded with never-stored keys (both sides of the >10 parallel-collection threshold) x every single follow-up; (C) tries of %v keys (hash-like keys, distinct values), the paths to all keys exported, 40 mirrored updates/deletes. for every (content, mode, request): every position of a storage read error during GetPath on the source, and every request for an uncovered key on the partial trie, each followed by the same export again; Oracle: export deserialises; partial root/weight == source root/weight (== model) before and after every mirrored operation; an operation that succeeds on the source must succeed on the partial trie; 'states' = (content, mode, request) cases, 'transitions' = mirrored sequences, distinct_nontrivial = distinct exports", maxKeys, modes, depth, scale))
 	rep.Sample(map[string]any{"content": "k0=a k1=b", "mode": 1, "requested": "{k0 k5}", "follow": []string{"update(k5,a)", "delete(k0)"}})
 	return rep.Finish()
+}
+
+// afterErrors: an export that FAILED must leave the trie it was asked of as it was. (a) every position of a
+// storage read error during GetPath on a freshly built (collapsed) source, then the same request again
+// without the fault; (b) a request the partial trie cannot serve (a key its export does not cover), then the
+// partial trie exported again. Each re-export must deserialise to the source's root and weight and follow
+// one update in step.
+func (r *c12run) afterErrors(c content, mode int, req [][]byte, m *model.WModel, export []byte, describe func() string, replay map[string]any) bool {
+	step := func(what string, a, b *wmpt.WeightedMerkleTrie, mm *model.WModel) bool {
+		if !bytes.Equal(a.Root(), b.Root()) || a.Weight() != b.Weight() || !bytes.Equal(a.Root(), mm.Root()) || a.Weight() != mm.Total() {
+			r.violate("after-error:"+what[:min(len(what), 14)], fmt.Sprintf("%s: %s: re-exported partial trie has root %x weight %d, its source root %x weight %d, the model root %x weight %d", describe(), what, b.Root(), b.Weight(), a.Root(), a.Weight(), mm.Root(), mm.Total()), replay)
+			return false
+		}
+		return true
+	}
+	mirror := func(what string, a, b *wmpt.WeightedMerkleTrie, mm *model.WModel) bool {
+		if !step(what, a, b, mm) {
+			return false
+		}
+		if len(req) == 0 {
+			return true
+		}
+		k := req[0]
+		v := []byte("after-error")
+		ea, eb := a.Update(k, v, 5), b.Update(k, v, 5)
+		if ea != nil || eb != nil {
+			r.violate("after-error-op:"+what[:min(len(what), 14)], fmt.Sprintf("%s: %s, then update of the first requested key: source %v, re-exported partial trie %v", describe(), what, ea, eb), replay)
+			return false
+		}
+		mm.M[string(k)] = modelEntry(k, v, 5)
+		return step(what+", then an update of the first requested key", a, b, mm)
+	}
+	// (a) read faults on the source
+	for k := 0; k < 40; k++ {
+		src, m2, st := buildTrieS(c, Shared(false), mode)
+		st.ArmGetFault(k)
+		_, _ = src.GetPath(req)
+		hit := st.GetFaultHit
+		st.ArmGetFault(-1)
+		if !hit {
+			break
+		}
+		atomic.AddInt64(&r.faults, 1)
+		what := fmt.Sprintf("storage read %d of GetPath failed, GetPath called again", k)
+		export, err := src.GetPath(req)
+		if err != nil {
+			r.violate("after-read-fault", fmt.Sprintf("%s: %s returned %v", describe(), what, err), replay)
+			return false
+		}
+		p2 := wmpt.New(nil, nil)
+		if err := p2.Deserialize(export); err != nil {
+			r.violate("after-read-fault-des", fmt.Sprintf("%s: %s: the export does not deserialise: %v", describe(), what, err), replay)
+			return false
+		}
+		if !mirror(what, src, p2, m2) {
+			return false
+		}
+	}
+	var part *wmpt.WeightedMerkleTrie
+	// (b) a request the partial trie cannot serve, then a re-export of the partial trie. The partial trie
+	// used here sits on an (empty) store: without any store, GetPath on a partial trie whose root is a bare
+	// hash stub dereferences the nil store -- observed on the unchanged tree, covered by no property, not judged.
+	part = wmpt.New(nil, dev.NewStore())
+	if err := part.Deserialize(export); err != nil {
+		return true // judged by the caller already
+	}
+	if _, err := part.GetPath(req); err != nil {
+		return true // this partial trie cannot be exported at all (e.g. its root is a bare hash stub): nothing to compare
+	}
+	for _, k := range append(append([][]byte{}, Keys...), extraKeys[0], extraKeys[3], extraKeys[7]) {
+		covered := false
+		for _, q := range req {
+			if bytes.Equal(q, k) {
+				covered = true
+			}
+		}
+		if covered {
+			continue
+		}
+		if _, err := part.GetPath([][]byte{k}); err == nil {
+			continue // the export happens to cover this key's path
+		}
+		atomic.AddInt64(&r.faults, 1)
+		what := fmt.Sprintf("the partial trie rejected a request for the uncovered key %x.., and was exported again", k[:2])
+		export, err := part.GetPath(req)
+		if err != nil {
+			r.violate("after-reject", fmt.Sprintf("%s: %s: GetPath returned %v", describe(), what, err), replay)
+			return false
+		}
+		p2 := wmpt.New(nil, nil)
+		if err := p2.Deserialize(export); err != nil {
+			r.violate("after-reject-des", fmt.Sprintf("%s: %s: the export does not deserialise: %v", describe(), what, err), replay)
+			return false
+		}
+		m2 := m.Clone()
+		if !step(what, part, p2, m2) {
+			return false
+		}
+	}
+	return true
 }
